@@ -27,8 +27,10 @@ def main():
     ap.add_argument("--needs", default=None); ap.add_argument("--seed", default="0")
     a = ap.parse_args()
     d = os.path.abspath(a.dir)
-    wt = "/tmp/seed_%s" % a.prop  # the path the seeding agent used (some demos assert it)
-    sh(["git", "-C", "/repo", "worktree", "remove", "--force", wt]); shutil.rmtree(wt, ignore_errors=True)
+    wt = "/tmp/seed_%s" % a.prop  # the path the seeding agent used (some round-1 demos assert it)
+    if os.path.exists(wt):          # another validation of the same property is running: use a private path
+        wt = "/tmp/seed_%s_%d" % (a.prop, os.getpid())
+    sh(["git", "-C", "/repo", "worktree", "prune"])
     meta_path = os.path.join(d, "meta.json")
     meta = json.load(open(meta_path)) if os.path.exists(meta_path) else {}
     meta.update({"property": a.prop})
